@@ -11,6 +11,7 @@ import (
 	"io/ioutil"
 	"log"
 	"sort"
+	"strings"
 
 	"github.com/youzan/ZanRedisDB/engine"
 	"github.com/youzan/ZanRedisDB/raft"
@@ -671,7 +672,14 @@ func (c *Cluster) netSize() int {
 func (c *Cluster) restart(nd *rnode) {
 	defer func() {
 		if r := recover(); r != nil {
-			c.fail("C03", "restart-panic", fmt.Sprintf("replica %d cannot restart from its storage: %v", nd.id, r))
+			sig := "restart-panic"
+			if snap, err := nd.st.Snapshot(); err == nil {
+				if hs, _, err2 := nd.st.InitialState(); err2 == nil && hs.Commit < snap.Metadata.Index && strings.Contains(fmt.Sprint(r), "is out of range") {
+					// the snapshot of a Ready was persisted, the hard state of the same Ready was not
+					sig = "restart-panic|hard-state-older-than-snapshot"
+				}
+			}
+			c.fail("C03", sig, fmt.Sprintf("replica %d cannot restart from its storage: %v", nd.id, r))
 			c.crash(nd)
 		}
 	}()
